@@ -3,6 +3,8 @@
 from __future__ import annotations
 
 import copy
+
+import numpy as np
 import json
 import os
 import subprocess
@@ -122,6 +124,11 @@ def gen_cases(seed, tier):
     for _ in range(4 if quick else 40):
         add("seed", sampler="smc", flow="simflow", xp="numpy", route="sample", api="sampler")
         add("seed", sampler="minipcn", flow="simflow", xp="numpy", route="top", api="aspire")
+    # the documented way from weighted importance samples to unweighted posterior draws takes a generator too
+    for _ in range(2 if quick else 20):
+        for xp in ("numpy", "torch", "jax"):
+            add("rejection", sampler="importance", flow="simflow", xp=xp, rng_kind=None)
+        add("rejection", sampler="importance", flow="simflow", xp="numpy", rng_kind="duck")
     from . import c05_blackjax
 
     return c05_blackjax.cases(ID, seed, tier, n_quick=4, n_thorough=40) + cases
@@ -216,6 +223,45 @@ def run_case(case, workdir):
             # affect reproducibility: counted, not judged
             probes["entropy_requests_with_supplied_rng"] = r1.entropy_requests
         keys.append(key)
+    elif kind == "rejection":
+        from ..core import entropy_seam, to_np
+        from ..rng import make_generator
+        from ..runner import DuckGenerator
+
+        smp = r1.samples
+        wr = {**where, "route": "rejection_sample", "api": "Samples.rejection_sample"}
+
+        def draw(seed_):
+            g_ = make_generator(int(seed_), trace=None, name="user", backend=scn["xp"])
+            arg = DuckGenerator(g_) if scn.get("rng_kind") == "duck" else g_
+            with entropy_seam(int(scn["seeds"]["entropy"]) + 77, None) as es_:
+                out_ = smp.rejection_sample(rng=arg)
+            return g_, es_.requests, np.asarray(to_np(out_.x), dtype=np.float64)
+
+        base = int(scn["seeds"]["rng"]) + 5
+        g, n_entropy, xa = draw(base)
+        evaluations += 1
+        if g.n_draws == 0:
+            V.append(O.violation("c20.supplied_rng_unused", "the generator handed to Samples.rejection_sample(rng=...) was never drawn from"
+                                 + (f" ({n_entropy} unseeded generators were created instead)" if n_entropy else ""), wr))
+        elif n_entropy:
+            V.append(O.violation("c20.other_generator_used", f"Samples.rejection_sample(rng=...) also created {n_entropy} unseeded generator(s)", wr))
+        _, _, xb = draw(base)
+        if xa.shape != xb.shape or not np.array_equal(xa, xb):
+            V.append(O.violation("c20.twin_inprocess", "two rejection-sampling passes over the same weighted set with identically seeded generators "
+                                 f"kept different rows ({len(xa)} vs {len(xb)})", wr))
+        # another seed must be able to change the outcome -- judged only when enough rows have an acceptance probability away
+        # from 0 and 1 (otherwise the same rows are kept whatever the uniforms are)
+        lw = np.asarray(to_np(smp.log_w), dtype=np.float64)
+        pacc = np.exp(lw - np.max(lw))
+        undecided = int(np.sum((pacc > 0.1) & (pacc < 0.9)))
+        if undecided >= 8:
+            same = sum(1 for k_ in range(1, 4) if (lambda xc: xc.shape == xa.shape and np.array_equal(xc, xa))(draw(base + k_)[2]))
+            if same == 3:
+                V.append(O.violation("c20.seed_ignored", "three other generator seeds kept exactly the same rows in Samples.rejection_sample", wr))
+            probes["rejection_seed_sensitivity_judged"] = 1
+        probes["rejection_sample_calls"] = 5
+        keys.append(["rejection", scn["xp"], scn.get("rng_kind")])
     elif kind == "seed":
         s2 = copy.deepcopy(scn)
         s2["seeds"]["rng"] = scn["seeds"]["rng"] + 1
